@@ -28,6 +28,7 @@ BUDGET_S = float(os.environ.get('VERIF_BUDGET_S', '0') or 0)
 def reset_between_cases():
     """Called by workers before every case: reseed the global RNG, drop process-wide lru caches."""
     import numpy as np
+    warnings.simplefilter('ignore')
     np.random.seed(12345)
     from matched_markets.methodology import tbrmmdiagnostics as _d
     for name in ('_brownian_bridge_bounds', '_impact_estimate'):
